@@ -4,7 +4,8 @@
 (* behaviour is a finite word over                                         *)
 (*   ok   200                       bare  401 "WWW-Authenticate: Negotiate"*)
 (*   rej  401 Negotiate + reject token   oth 401 other scheme              *)
-(*   rs   302 to the same host      ro   302 to another host   err  500    *)
+(*   rs   redirect to the same host ro   redirect to another host err 500  *)
+(*        (307: method and body are kept; 302: a POST becomes a GET)       *)
 (* followed by a constant tail.  The client machine is Client.Do: send;    *)
 (* follow a redirect (the Authorization header is dropped, at most 10      *)
 (* redirects per call); on a bare Negotiate challenge authenticate and     *)
